@@ -93,6 +93,11 @@ Definition demanded (p : plat) (meth site : string) (c : cond) : option res :=
   | None => contract p meth site c
   end.
 
+Definition pair_conds (p : plat) : list (err * err * pstate * bool) :=
+  let es := filter (err_ok p) [ESRCH; ENOENT; EPERM; EACCES; EIO; EINVAL; WACCESS; WPRIV; WPARTIAL; WINVAL] in
+  flat_map (fun e1 => flat_map (fun e2 => flat_map (fun s => map (fun z => (e1, e2, s, z)) [false; true])
+                                                   [Alive; Zombie; Gone]) es) es.
+
 (* finding: PID 0 NOT listed by the OS is still taken to exist (_psposix.pid_exists(0) is True
    unconditionally): Solaris turns a no-such-process failure on it into ZombieProcess, NetBSD
    cmdline() swallows EINVAL for it *)
@@ -120,6 +125,49 @@ Definition all_state : list pstate := [Alive; Zombie; Gone].
 Definition conds (p : plat) : list cond :=
   flat_map (fun e => flat_map (fun s => map (fun z => Build_cond e s z) [false; true]) all_state)
            (filter (err_ok p) all_err).
+
+(* ------------------------------------------------------------------ two native calls, retries, wait() *)
+(* the documented second routes: which (method, first call, second call) and for which first failure *)
+Definition pair_sites (p : plat) : list (string * string * string) :=
+  match p with
+  | Windows => [("memory_info", "proc_memory_info", "proc_info"); ("memory_full_info", "proc_memory_info", "proc_info");
+                ("create_time", "proc_times", "proc_info"); ("cpu_times", "proc_times", "proc_info");
+                ("io_counters", "proc_io_counters", "proc_info"); ("num_handles", "proc_num_handles", "proc_info");
+                ("cmdline", "proc_cmdline[peb]", "proc_cmdline[nopeb]")]
+  | SunOS => [("uids", "proc_cred", "proc_basic_info"); ("gids", "proc_cred", "proc_basic_info")]
+  | _ => []
+  end%string.
+Definition second_route (p : plat) (meth site1 site2 : string) (e1 : err) (s : pstate) (z : bool) : bool :=
+  match p with
+  | Windows => perm_failure e1 &&
+               (g_win_cmdline_pair meth site1 site2 || (g_win_fallback meth site1 && seq site2 "proc_info"))
+  | SunOS => g_sunos_cred meth site1 && seq site2 "proc_basic_info" &&
+             (perm_failure e1 || (z && listed s && negb (nosuch_failure p meth site1 e1)))
+  | _ => false
+  end.
+(* the second route failed too: its failure is what the ladder translates (a PARTIAL_COPY of the
+   second cmdline query is retried like the first) *)
+Definition pair_demanded (p : plat) (meth site1 site2 : string) (e1 e2 : err) (s : pstate) (z : bool) : option res :=
+  if second_route p meth site1 site2 e1 s z then
+    if (match p with Windows => true | _ => false end) && g_win_cmdline_pair meth site1 site2 && is_partial e2 then Some RDenied
+    else contract p meth site2 (Build_cond e2 s z)
+  else demanded p meth site1 (Build_cond e1 s z).
+Definition pair_known (p : plat) (meth site1 site2 : string) (e1 e2 : err) (s : pstate) (z : bool) : bool :=
+  known_pid0_unlisted p meth site1 (Build_cond e1 s z) || known_pid0_unlisted p meth site2 (Build_cond e2 s z).
+
+(* ERROR_PARTIAL_COPY k times, then success or another error: 33 attempts, then AccessDenied *)
+Definition retry_demanded (meth site : string) (k : Z) (then_ : option err) (s : pstate) (z : bool) : option res :=
+  if g_win_partial meth then
+    if 33 <=? k then Some RDenied
+    else match then_ with None => Some RVal | Some e => demanded Windows meth site (Build_cond e s z) end
+  else demanded Windows meth site (Build_cond WPARTIAL s z).
+
+(* wait(timeout=0): TimeoutExpired(pid, name) while the PID is there, a value once it is gone *)
+Definition wait_demanded (p : plat) (w : wscen) (s : pstate) : res :=
+  match w with
+  | WNativeTimeout => RTimeout
+  | _ => if listed s then RTimeout else RVal
+  end.
 
 (* ------------------------------------------------------------------ native record layouts (C sources) *)
 Definition bsd_kinfo : list string :=
